@@ -365,4 +365,86 @@ def fromWide (w : List Int) : Option (List UInt8) :=
   let l := (w.takeWhile (· != 0)).length
   utf16toUtf8 w (capAfterInit (4 * l))
 
+/-- `String(const Array<wchar_t>& txt)`: `init(4*txt.length()); a = txt.clone(); a << 0;
+    _len = to8bit(a.data(), str(), cap())` -/
+def fromWideArr (w : List Int) : Option (List UInt8) := utf16toUtf8 (w ++ [0]) (capAfterInit (4 * w.length))
+
+/-! ### `fixW()` (:352): the wide scratch area converted back **in place**
+
+`to8bit((wchar_t*)(str() + offset), str(), cap())` reads `wchar_t`s from byte offset `off` of the
+String's own buffer (`size` bytes) and writes UTF-8 from byte 0 of the same buffer.  The model keeps both
+cursors: `k` = number of units the read pointer has passed (it stands at byte `off + 4*k`), `w` = byte index
+of the write pointer.  The scratch area from `off` to the end of the buffer is the list of units.
+A store is a fault if it falls outside the buffer (`oobWrite`) or at/after the read cursor (`overtake`:
+it would destroy a unit not yet read — the only way the in-place conversion could differ from the
+out-of-place one); a read beyond the buffer is `oobRead`. -/
+
+inductive Fault
+  | oobRead | oobWrite | overtake
+  deriving DecidableEq, Repr
+
+/-- storing `cnt` bytes at `w, w+1, …` while the read cursor stands at unit `k` -/
+def storeFault (off size k w cnt : Nat) : Option Fault :=
+  if w + cnt > size then some .oobWrite
+  else if w + cnt > off + 4 * k then some .overtake
+  else none
+
+/-- the final `*u = '\0'` -/
+def finish (off size k w : Nat) : Except Fault (List UInt8) :=
+  match storeFault off size k w 1 with
+  | some f => .error f
+  | none => .ok []
+
+/-- stores of one loop iteration, `if (--n == 0) break;`, the rest of the loop -/
+def contF (off size k w : Nat) (out : List UInt8) (n : Int) (rest : Except Fault (List UInt8)) :
+    Except Fault (List UInt8) :=
+  match storeFault off size k w out.length with
+  | some f => .error f
+  | none =>
+    if n - 1 = 0 then (finish off size k (w + out.length)).map (out ++ ·)
+    else rest.map (out ++ ·)
+
+/-- `utf16toUtf8` run in place; same branches as `utf16toUtf8` above -/
+def fixWLoop (off size : Nat) : List Int → Nat → Nat → Int → Except Fault (List UInt8)
+  | [], _, _, _ => .error .oobRead
+  | c :: p, k, w, n =>
+    if c = 0 then finish off size (k + 1) w
+    else if c < 0x80 then contF off size (k + 1) w [lowByte c] n (fixWLoop off size p (k + 1) (w + 1) (n - 1))
+    else if c < 0x800 then contF off size (k + 1) w (enc2 c.toNat) n (fixWLoop off size p (k + 1) (w + 2) (n - 1))
+    else if c < 0xd800 ∨ c > 0xdfff then
+      contF off size (k + 1) w (enc3 c.toNat) n (fixWLoop off size p (k + 1) (w + 3) (n - 1))
+    else if c < 0xdc00 then
+      match p with
+      | [] => .error .oobRead
+      | c2 :: p2 =>
+        if c2 < 0xdc00 ∨ c2 > 0xdfff then finish off size (k + 2) w
+        else contF off size (k + 2) w (enc4 (pairCode c.toNat c2.toNat)) n (fixWLoop off size p2 (k + 2) (w + 4) (n - 1))
+    else finish off size (k + 1) w
+
+/-- `_size` after `init(n)` / `alloc(n)` (0 = the 16-byte inline buffer) -/
+def sizeInit (n : Nat) : Nat := if n < 16 then 0 else max (n + 1) 20
+/-- `_size` after `resize(n, …)` starting from `_size = size0` (sizes below 2^30) -/
+def sizeResize (size0 n : Nat) : Nat :=
+  if size0 = 0 then (if n < 16 then 0 else max (n + 1) 24)
+  else if n + 1 > size0 then max (2 * size0) (n + 1) else size0
+/-- `cap()` -/
+def capOf (size : Nat) : Nat := if size = 0 then 16 else size
+/-- the argument of the `resize` in `dataw()` -/
+def datawNeed (len : Nat) : Nat := len + 1 + (len + 2) * 4
+
+/-- the scratch area as the harness fills it: as many of the given units as fit before a terminator -/
+def scratch (off cap : Nat) (units : List Int) : List Int := units.take ((cap - off) / 4 - 1) ++ [0]
+
+/-- `s.dataw()`, the caller stores `units` into the scratch area, `s.fixW()`: the new content (`_len = strlen(str())`) -/
+def fixWString (size0 len : Nat) (units : List Int) : Except Fault (List UInt8) :=
+  let cap := capOf (sizeResize size0 (datawNeed len))
+  let off := wideOffset len
+  (fixWLoop off cap (scratch off cap units) 0 0 cap).map fun out => out.takeWhile (· != 0)
+
+/-- `String s(bytes); s.dataw(); …; s.fixW()` -/
+def fixwOp (len : Nat) (units : List Int) : Except Fault (List UInt8) := fixWString (sizeInit len) len units
+
+/-- `String s; { SafeString ss(s, n); wchar_t* w = ss; … }` — `resize(3*n)`, `dataw()`, caller stores, `fixW()` -/
+def safeOp (n : Nat) (units : List Int) : Except Fault (List UInt8) := fixWString (sizeResize 0 (3 * n)) (3 * n) units
+
 end AslModel.Utf
